@@ -22,7 +22,7 @@ pub fn convert_cntrl_flow(
 
             match el {
                 Some(el) => {
-                    if ast.ty.is_some() && is_valid_in_ternary(then, el) {
+                    if ast.ty.is_some() && is_valid_in_ternary(then, el, state.is_last_must_be_ret) {
                         let state = state
                             .is_last_must_be_ret(false)
                             .remove_ret(true)
@@ -95,9 +95,20 @@ pub fn convert_cntrl_flow(
     })
 }
 
-fn is_valid_in_ternary(then: &ASTTy, el: &ASTTy) -> bool {
-    !matches!(then.node, NodeTy::Block { .. } | NodeTy::Raise { .. })
-        && !matches!(el.node, NodeTy::Block { .. } | NodeTy::Raise { .. })
+/// An arm can be an operand of a ternary if it is an expression.
+///
+/// An explicit `return e` is folded into the ternary as `e`, which is only meaning preserving if the
+/// ternary itself is what the function returns.
+fn is_valid_in_ternary(then: &ASTTy, el: &ASTTy, returned: bool) -> bool {
+    is_valid_ternary_arm(then, returned) && is_valid_ternary_arm(el, returned)
+}
+
+fn is_valid_ternary_arm(arm: &ASTTy, returned: bool) -> bool {
+    match arm.node {
+        NodeTy::Block { .. } | NodeTy::Raise { .. } => false,
+        NodeTy::Return { .. } | NodeTy::ReturnEmpty => returned,
+        _ => true,
+    }
 }
 
 #[cfg(test)]
